@@ -477,7 +477,8 @@ class BlackbirdProgram:
                             "{}={}{}{}j".format(k, v.real, "+-"[int(v.imag < 0)], np.abs(v.imag))
                         )
 
-                    elif isinstance(v, (list, tuple)):
+                    elif isinstance(v, (list, tuple, sym.Expr)):
+                        # lists, and values containing free parameters
                         kwargs.append("{}={}".format(k, _format_value(v)))
 
                     else:
